@@ -664,6 +664,13 @@ def kernel_cross_check(ctx, report, status):
     import random
     import warnings
 
+    from translator import pyarr_selftest
+
+    for what in pyarr_selftest.refused_problems():  # constructs outside the subset must be refused, never guessed
+        status.problem("translator", f"pyarr self-test: {what}")
+    for what in pyarr_selftest.python_problems(ctx.seed):  # accepted programs: CPython vs the evaluator, aliasing included
+        status.problem("translator", f"pyarr self-test: {what}")
+    report.translator_checks += len(pyarr_selftest.REFUSED) + len(pyarr_selftest.ACCEPTED)
     rng = random.Random(4242 + ctx.seed)
     shapes = KERNEL_SHAPES + [None] * ctx.n(24, 200)
     for shape in shapes:
